@@ -108,3 +108,20 @@ PROPS["C09"] = dict(
          "valid sector / non-empty promised set / operator value case; distinct by arguments",
     exhaustive_note="constructor box enumerated completely",
 )
+
+PROPS["C15"] = dict(
+    level="proof",
+    technique="Lean 4 theorems (deterministic prefix-reader lemma: every strict prefix of a completely consumed stream "
+              "is refused; failed load leaves the receiver unchanged; directory resolution) + exhaustive crash-point "
+              "enumeration (truncation at every byte) and chdir histories on the real library",
+    text="The logic of save/read is proved on the model (prefix lemma for any deterministic reader, atomic read, location "
+         "= caller's path or cwd at call time); the law assumed of pickle is validated by truncating every saved file at "
+         "every byte offset (read must raise, receiver snapshot unchanged), by damaged header/STOP bytes, by bitwise round "
+         "trips into a new object with a battery of later operations, and by chdir histories with and without a path.",
+    note="Lean kernel; pickle itself is trusted to be a deterministic stream reader (validated exhaustively per file, not "
+         "proved); filesystem semantics (partial writes by the OS) are represented by truncation only.",
+    design_ref="DESIGN.md §5 C15",
+    rule="cases = round trips, every truncation offset of every saved file (exhaustive per file), header/STOP damage, "
+         "location histories; each offset is a distinct non-trivial case",
+    exhaustive_note="every byte offset of every generated file",
+)
